@@ -175,7 +175,7 @@ claim("C05", "proof",
       "KDF/KDFA, KMAC/KMACA and PBKDF2 against their definitions over the customised XOF (RFC 8018 iteration: big-endian "
       "block index from 1, xor of the U values, count 0 as 1, truncated last block) with all data symbolic.",
       "Plain-assertion groups over specification stubs / an abstract HMAC model with enumerated lengths, positions and "
-      "iteration counts (counts 0..3, requests up to ~100 bytes, the refusal boundary); PBKDF2-HMAC is not covered; the "
+      "iteration counts (counts 0..3, requests up to ~100 bytes, the refusal boundary); PBKDF2-HMAC over the abstract HMAC model; the "
       "HKDF reference is sensitive to how the three HMAC update pieces are chunked.",
       "CBMC: harness-asserted postconditions over specification stubs and an uninterpreted HMAC model", "4/C05")
 
